@@ -46,6 +46,7 @@ const P_ALL_CAUGHT_UP_3: usize = 2;
 const P_LAG_SPREAD_3: usize = 3;
 const P_POP_FRONT_BY_LAGGARD: usize = 4;
 const P_TWELVE_LIVE: usize = 5;
+const P_PAST_32K: usize = 6;
 
 struct Model {
     cursors: [Option<u64>; SLOTS],
@@ -128,7 +129,8 @@ fn uniform(r: &mut Rng, m: &Model, st: &Sched, exclude: Option<usize>) -> Op {
     match r.weighted(&w) as u8 {
         O_SEND => Op::ka(O_SEND, *r.pick(&empty) as i64),
         O_NEXT => Op::ka(O_NEXT, *r.pick(&pullers) as i64),
-        O_BURST => Op::kab(O_BURST, *r.pick(&pullers) as i64, r.range(2, 12)),
+        // (rarely: a fast-forward across 2^15 / 2^16 frames, where internal counters might wrap or rebase)
+        O_BURST => Op::kab(O_BURST, *r.pick(&pullers) as i64, if r.chance(1, 400) { *r.pick(&[32_767i64, 32_768, 40_000, 65_536, 66_000]) } else { r.range(2, 12) }),
         O_DROP => Op::ka(O_DROP, pick_drop(r, m, &live) as i64),
         O_DROP_BUS => Op::k(O_DROP_BUS),
         _ => Op::k(O_PROBE),
@@ -273,7 +275,7 @@ fn drive<F: TagFrame>(src: &mut Source, obs: &mut Observer) -> Result<(), Violat
                 m.pulls_by[slot] = 0;
             }
             O_NEXT | O_BURST => {
-                let k = if op.k == O_NEXT { 1 } else { op.b.clamp(1, 64) };
+                let k = if op.k == O_NEXT { 1 } else { op.b.clamp(1, 70_000) };
                 for j in 0..k {
                     let c = m.cursors[slot].unwrap();
                     let want: F = ProbeSignal::<F>::expect(3, end, c);
@@ -366,6 +368,9 @@ fn drive<F: TagFrame>(src: &mut Source, obs: &mut Observer) -> Result<(), Violat
             check_eq!(obs, b.verif_live_outputs(), m.live().len(), "bus.live-outputs", "registered outputs");
         }
         let live_n = m.live().len();
+        if m.pulled > 32_768 {
+            obs.probe(P_PAST_32K);
+        }
         if m.backlog() >= 8 {
             obs.probe(P_BACKLOG_8);
         }
@@ -422,6 +427,7 @@ impl Scenario for BusScenario {
             ">= 3 distinct lags at once",
             "laggard that alone needed the front frame read it (front pop path)",
             ">= 12 live outputs (two-level BTreeMap)",
+            "operation after more than 32768 frames were pulled",
         ]
     }
     fn rule(&self) -> &'static str {
